@@ -99,7 +99,12 @@ func (c *ClusterNode) RPCSendShard(args *RPCSendShardRequest, reply *RPCSendShar
 	// Does this generate a lot of syscalls? If so, we can switch to buffered
 	// writers but we need to keep track of the file descriptor across RPC
 	// calls. Let's see if this is a problem first, we can optimize later.
-	f, err := os.OpenFile(shardPath, os.O_APPEND|os.O_CREATE|os.O_WRONLY, 0644)
+	openFlags := os.O_APPEND | os.O_CREATE | os.O_WRONLY
+	if args.ChunkIndex == 0 {
+		// A new transfer starts, discard anything left by an interrupted one
+		openFlags |= os.O_TRUNC
+	}
+	f, err := os.OpenFile(shardPath, openFlags, 0644)
 	if err != nil {
 		return fmt.Errorf("could not open shard file: %w", err)
 	}
